@@ -903,7 +903,7 @@ def _negate(c):
         return 'true'
     if c.startswith('not '):
         return c[4:]
-    simple = not any(x in c for x in '([') and sum(c.count(o) for o in (' == ', ' != ', ' < ', ' > ', ' <= ', ' >= ', ' and ', ' or ')) == 1
+    simple = '[' not in c and not c.startswith('(') and sum(c.count(o) for o in (' == ', ' != ', ' < ', ' > ', ' <= ', ' >= ', ' and ', ' or ', ' ~ ')) == 1
     if ' == ' in c and simple:
         return c.replace(' == ', ' != ')
     if ' != ' in c and simple:
